@@ -239,7 +239,52 @@ def _nlsat(pc, g, inputs, timeout_ms):
     return None
 
 
+def _realizable_units_model(s, inputs, timeout_ms):
+    """a counter-model in which every symbolic unit has the SI factor of a real unit of its kind (better replays)"""
+    from . import spec
+    cons = []
+    for k, e in inputs.items():
+        if k.endswith("#fac") and z3.is_app(e) and e.decl().name().startswith("fac_"):
+            base = e.decl().name()[4:]
+            vals = sorted(set(v for u, v in spec.SI_TABLE.get(base, {}).items() if u not in ("Ndm", "Ncm", "Nmm")))
+            if vals:
+                cons.append(z3.Or(*[e == z3.RealVal(f"{v.numerator}/{v.denominator}") for v in vals]))
+    if not cons:
+        return None
+    s.push()
+    try:
+        s.set("timeout", min(timeout_ms, 3000))
+        s.add(*cons)
+        if s.check() == z3.sat:
+            return s.model()
+    except z3.Z3Exception:
+        pass
+    finally:
+        s.pop()
+    return None
+
+
 def discharge(pc, goal, inputs, timeout_ms=10000, fallbacks=True):
+    r = _discharge(pc, goal, inputs, timeout_ms, fallbacks)
+    if r["status"] == "refuted" and not r.get("units_realizable") and any(k.endswith("#fac") for k in inputs):
+        # look for a counter-model whose symbolic units are real units (replayable natively)
+        try:
+            s = z3.Solver()
+            s.set("timeout", 3000)
+            s.add(*pc)
+            s.add(z3.Not(goal))
+            m2 = _realizable_units_model(s, inputs, 3000)
+            if m2 is None:
+                fs, subs = ackermannize(list(pc) + [z3.Not(goal)])
+        except (z3.Z3Exception, TooManyApps):
+            m2 = None
+        if m2 is not None:
+            r["model"] = model_dict(m2, inputs)
+            r["units_realizable"] = True
+    return r
+
+
+def _discharge(pc, goal, inputs, timeout_ms=10000, fallbacks=True):
     """-> dict(status, backend, time_s, model)"""
     t0 = time.time()
     g = z3.simplify(goal)
@@ -266,8 +311,10 @@ def discharge(pc, goal, inputs, timeout_ms=10000, fallbacks=True):
     if r == z3.unsat:
         return dict(status="discharged", backend="z3-5.1(api)", time_s=time.time() - t0, model=None)
     if r == z3.sat:
+        m = s.model()
+        m2 = _realizable_units_model(s, inputs, timeout_ms)
         return dict(status="refuted", backend="z3-5.1(api)", time_s=time.time() - t0,
-                    model=model_dict(s.model(), inputs))
+                    model=model_dict(m2 or m, inputs), units_realizable=bool(m2))
     if fallbacks and not os.environ.get('PYCV_NO_FALLBACK'):
         text = _smtlib(pc, g)
         to_s = max(1, timeout_ms // 1000)
